@@ -97,6 +97,7 @@ type pathState struct {
 	raceSeen   map[string]bool
 
 	expectPanic int
+	osFiles     map[*value]value
 	harnessRaces int
 	sleep       []TInfo
 	itemSleep   []TInfo
